@@ -139,8 +139,10 @@ fn check_k<K: Kind>(case: &InterpCase, ctx: &mut Ctx) {
         o += n;
     }
     let amb = ambiguous(cfg, &case.a, &case.b);
-    if !amb {
-        // reversal
+    {
+        // reversal: "interpolating from b to a at 1-t gives the same configuration" - also for
+        // exactly antipodal pairs, where it pins down that both directions pick the same one of
+        // the two shortest paths
         let mut rev = K::dec(cfg, &case.garbage);
         sp.interpolate(&b, &a, 1.0 - t, &mut rev);
         let r = K::enc(&rev);
@@ -151,6 +153,8 @@ fn check_k<K: Kind>(case: &InterpCase, ctx: &mut Ctx) {
                 format!("interpolate(a,b,t) = {m:?} but interpolate(b,a,1-t) = {r:?} (distance {dr:e})"),
             );
         }
+    }
+    if !amb {
         // differential against the reference interpolation
         let rm = ref_interpolate(cfg, &case.a, &case.b, t);
         let dd = ref_distance(cfg, &m, &rm);
